@@ -23,7 +23,7 @@ RULE = ('seeded plans: 3-D mask (random shapes up to 7x6x5, all 256 masks of sha
 ASSUMPTIONS = ['joblib 1.6.0 internals used by the scheduler seam (ParallelBackendBase, joblib.parallel.time)',
                'tasks are executed atomically one at a time by the simulator, so interleavings *inside* one task are not explored',
                'calc_rdm on a single searchlight is C01\'s primitive; here it is compared with an independent numpy reference']
-BUDGET = {'quick': {'runs': 1200, 'cap_s': 60, 'wall_s': 110, 'chunk': 20},
+BUDGET = {'quick': {'runs': 2500, 'cap_s': 60, 'wall_s': 110, 'chunk': 20},
           'thorough': {'runs': 40000, 'cap_s': 180, 'wall_s': 1500, 'chunk': 100}}
 
 RADII = [1, 1.01, 2 ** 0.5, 1.5, 3 ** 0.5, 2, 2.5, 3]
